@@ -171,7 +171,7 @@ Definition chk_search (x l : list Qc) (r : list (obs (list Z))) : bool :=
 
 class C10(Property):
     id = "C10"
-    gen_targets = ["UtilsGlue"]
+    gen_targets = ["UtilsGlue", "ScanGlue"]
     rule = ("exhaustive lattice enumeration (every case is distinct by construction: key = (x, lookup)) plus seeded random float "
             "arrays with queries equal to / +-1 ulp from / between / beyond elements; every case runs all 3 strategies x 2 fill flags")
 
